@@ -254,4 +254,135 @@ def owUpdateLive (m : Mem) : Except PyErr OWParsed :=
       | .ok [.int _, .int elemLen] => owStage2 m pins vid pid elemLen.toNat
       | .ok _ => .error .valueError
 
+/-! ## Lighthouse geometry and calibration in memory layout (lighthouse_memory.py) -/
+
+/-- three float32 bit patterns (`vector[0]`, `vector[1]`, `vector[2]`) -/
+structure V3 where
+  x : Nat
+  y : Nat
+  z : Nat
+  deriving Repr, DecidableEq
+
+/-- `LighthouseBsGeometry` -/
+structure Geo where
+  origin : V3
+  r0 : V3
+  r1 : V3
+  r2 : V3
+  valid : Bool
+  deriving Repr, DecidableEq
+
+/-- `_add_vector` -/
+def packV3 (v : V3) : Except PyErr (List UInt8) :=
+  pack (parseFmt! Gen.C14.lhVecWFmt) [.flt v.x, .flt v.y, .flt v.z]
+
+/-- `_read_vector` -/
+def unpackV3 (d : List UInt8) : Except PyErr V3 :=
+  match unpack (parseFmt! Gen.C14.lhVecRFmt) d with
+  | .error e => .error e
+  | .ok [.flt x, .flt y, .flt z] => .ok ⟨x, y, z⟩
+  | .ok _ => .error .valueError
+
+/-- `LighthouseBsGeometry.add_mem_data` -/
+def geoImage (g : Geo) : Except PyErr (List UInt8) := do
+  let a ← packV3 g.origin
+  let b ← packV3 g.r0
+  let c ← packV3 g.r1
+  let d ← packV3 g.r2
+  let e ← pack (parseFmt! Gen.C14.lhGeoValidWFmt) [.bool g.valid]
+  pure (a ++ b ++ c ++ d ++ e)
+
+/-- `LighthouseBsGeometry.set_from_mem_data` -/
+def geoParse (data : List UInt8) : Except PyErr Geo := do
+  let sv := Gen.C14.lhSizeVector
+  let o ← unpackV3 (slice data (0 * sv) (1 * sv))
+  let r0 ← unpackV3 (slice data (1 * sv) (2 * sv))
+  let r1 ← unpackV3 (slice data (2 * sv) (3 * sv))
+  let r2 ← unpackV3 (slice data (3 * sv) (4 * sv))
+  match unpack (parseFmt! Gen.C14.lhGeoValidRFmt) (data.drop (4 * sv)) with
+  | .error e => .error e
+  | .ok [.bool v] => pure ⟨o, r0, r1, r2, v⟩
+  | .ok _ => .error .valueError
+
+/-- `LighthouseCalibrationSweep`: phase, tilt, curve, gibmag, gibphase, ogeemag, ogeephase (float32 bit patterns) -/
+structure Sweep where
+  phase : Nat
+  tilt : Nat
+  curve : Nat
+  gibmag : Nat
+  gibphase : Nat
+  ogeemag : Nat
+  ogeephase : Nat
+  deriving Repr, DecidableEq
+
+/-- `LighthouseBsCalibration` -/
+structure Calib where
+  s0 : Sweep
+  s1 : Sweep
+  uid : Int
+  valid : Bool
+  deriving Repr, DecidableEq
+
+def packSweep (s : Sweep) : Except PyErr (List UInt8) :=
+  pack (parseFmt! Gen.C14.lhSweepWFmt)
+    [.flt s.phase, .flt s.tilt, .flt s.curve, .flt s.gibmag, .flt s.gibphase, .flt s.ogeemag, .flt s.ogeephase]
+
+def unpackSweep (d : List UInt8) : Except PyErr Sweep :=
+  match unpack (parseFmt! Gen.C14.lhSweepRFmt) d with
+  | .error e => .error e
+  | .ok [.flt a, .flt b, .flt c, .flt d, .flt e, .flt f, .flt g] => .ok ⟨a, b, c, d, e, f, g⟩
+  | .ok _ => .error .valueError
+
+/-- `LighthouseBsCalibration.add_mem_data` -/
+def calibImage (c : Calib) : Except PyErr (List UInt8) := do
+  let a ← packSweep c.s0
+  let b ← packSweep c.s1
+  let t ← pack (parseFmt! Gen.C14.lhCalibTailWFmt) [.int c.uid, .bool c.valid]
+  pure (a ++ b ++ t)
+
+/-- `LighthouseBsCalibration.set_from_mem_data` -/
+def calibParse (data : List UInt8) : Except PyErr Calib := do
+  let ss := Gen.C14.lhSizeSweep
+  let s0 ← unpackSweep (slice data 0 ss)
+  let s1 ← unpackSweep (slice data ss (ss * 2))
+  match unpack (parseFmt! Gen.C14.lhCalibTailRFmt) (data.drop (ss * 2)) with
+  | .error e => .error e
+  | .ok [.int uid, .bool v] => pure ⟨s0, s1, uid, v⟩
+  | .ok _ => .error .valueError
+
+/-- what `LighthouseMemory.new_data` hands to the update callback -/
+inductive LhObj
+  | geo (g : Geo)
+  | calib (c : Calib)
+  deriving Repr, DecidableEq
+
+/-- `LighthouseMemory.new_data(mem, addr, data)`: the address decides which container parses the data -/
+def lhNewData (addr : Nat) (data : List UInt8) : Except PyErr LhObj :=
+  if addr < Gen.C14.lhCalibStart then (geoParse data).map .geo else (calibParse data).map .calib
+
+/-- `write_geo_data(bs_id, geo)` / `write_calib_data(bs_id, calib)` on the memory -/
+def lhWriteGeo (m : Mem) (bs : Nat) (g : Geo) : Except PyErr Mem :=
+  (geoImage g).map (m.write (Gen.C14.lhGeoWriteAddr bs))
+def lhWriteCalib (m : Mem) (bs : Nat) (c : Calib) : Except PyErr Mem :=
+  (calibImage c).map (m.write (Gen.C14.lhCalibWriteAddr bs))
+
+/-- `read_geo_data(bs_id)` / `read_calib_data(bs_id)` followed by `new_data` -/
+def lhReadGeo (m : Mem) (bs : Nat) : Except PyErr LhObj :=
+  lhNewData (Gen.C14.lhGeoReadAddr bs) (m.read (Gen.C14.lhGeoReadAddr bs) Gen.C14.lhSizeGeometry)
+def lhReadCalib (m : Mem) (bs : Nat) : Except PyErr LhObj :=
+  lhNewData (Gen.C14.lhCalibReadAddr bs) (m.read (Gen.C14.lhCalibReadAddr bs) Gen.C14.lhSizeCalibration)
+
+/-- `LighthouseMemHelper.write_geos(dict)`: the objects are written one after the other, in dict order;
+the first exception aborts -/
+def lhWriteGeos : Mem → List (Nat × Geo) → Except PyErr Mem
+  | m, [] => .ok m
+  | m, (bs, g) :: rest => do
+    let m' ← lhWriteGeo m bs g
+    lhWriteGeos m' rest
+def lhWriteCalibs : Mem → List (Nat × Calib) → Except PyErr Mem
+  | m, [] => .ok m
+  | m, (bs, c) :: rest => do
+    let m' ← lhWriteCalib m bs c
+    lhWriteCalibs m' rest
+
 end CfVerif.C14
